@@ -1,6 +1,6 @@
 SPECIFICATION Spec
 CONSTANTS
-  MaxTok = 140
+  MaxTok = 180
   MaxDecls = 4
   MinDecls = 3
   TypeNames <- TN
@@ -8,9 +8,11 @@ CONSTANTS
   VarNames <- VN
   Faults <- NoFaults
   OnlyFaulty = FALSE
-  Grow = 50
+  Grow = 110
   Shadowing = TRUE
   ForceAfter = 0
+  Slim = FALSE
+  Balance = TRUE
 CONSTRAINT SizeBound
 INVARIANTS Balanced UsesBound EmitInv
 CHECK_DEADLOCK FALSE
